@@ -108,10 +108,12 @@ TextOf(b) == IF Len(b) >= 2 /\ b[1] = 255 /\ b[2] = 254 THEN Utf8Of(Dec16(FoldCR
              ELSE IF Len(b) >= 2 /\ b[1] = 254 /\ b[2] = 255 THEN Utf8Of(Dec16(FoldCRLF(Units16(b, FALSE))))
              ELSE IF Len(b) >= 3 /\ b[1] = 239 /\ b[2] = 187 /\ b[3] = 191 THEN SubSeq(b, 4, Len(b))
              ELSE b
-NulFree(b) == \A i \in 1..Len(b) : b[i] # 0
+\* (written as a set equation, not as \A: TLC unfolds a bounded \A that stands as a conjunct of an action into one nested
+\*  evaluation per element, which exhausts the Java stack for contents of a few thousand bytes)
+NulFree(b) == {i \in 1..Len(b) : b[i] = 0} = {}
 IsUtf16(b) == Len(b) >= 2 /\ ((b[1] = 255 /\ b[2] = 254) \/ (b[1] = 254 /\ b[2] = 255))
 \* text() is specified for NUL-free texts: no zero byte, or no zero code unit in a UTF-16 file
-TextDefined(b) == IF IsUtf16(b) THEN \A i \in 1..((Len(b) - 2) \div 2) : b[2 * i + 1] # 0 \/ b[2 * i + 2] # 0
+TextDefined(b) == IF IsUtf16(b) THEN {i \in 1..((Len(b) - 2) \div 2) : b[2 * i + 1] = 0 /\ b[2 * i + 2] = 0} = {}
                   ELSE NulFree(b)
 
 \* "text files carrying a UTF-8, UTF-16LE or UTF-16BE byte-order mark are returned as the same text in UTF-8":
